@@ -387,6 +387,14 @@ def run(ctx) -> None:
     def one_dataset(db, names, stream: str, cfg_key, vias, valid: bool, opts=OPTS):
         recipe = db.recipe
         snap_in = snapshot(db.ds)
+        if valid:
+            # do the hypotheses of the theorems (Ems.Depth.Valid) hold for this input?  They must, except
+            # for coordinates sharing a dimension, which only the correspondence and the oracle cover
+            shared = any(len(ax['coords']) > 1 for ax in recipe['depth']['axes'])
+            line = f"hyp {D.dataset_str(db.sizes, db.mvars)} {','.join(names) or '-'}"
+            items.append((line, '0' if shared else '1', {'recipe': recipe, 'names': list(names), 'stream': stream,
+                                                         'op': line, 'opt': 'NN', 'via': 'function'}))
+            ctx.count('theorem hypotheses hold' if not shared else 'theorem hypotheses do not hold (shared dimension)')
         for (pd, dts) in opts:
             for via in vias:
                 o = opt_str(pd, dts)
@@ -446,6 +454,16 @@ def run(ctx) -> None:
             elif got:
                 sized = ','.join(f'{n}={int(db.ds[n].size)}' for n in got)
                 items.append((f'small {sized}', one, dict(desc, op=f'small {sized}')))
+            # get_depth_coordinate_for_data_array on a few data variables
+            cs = ','.join(f"{n}:{'+'.join(map(str, db.ds[n].dims)) or '-'}" for n in got) or '-'
+            names = [str(n) for n in db.ds.data_vars]
+            for vn in names[:6]:
+                try:
+                    impl = str(c.get_depth_coordinate_for_data_array(vn).name)
+                except Exception:
+                    impl = 'ERR'
+                line = f"coordfor {cs} {'+'.join(map(str, db.ds[vn].dims)) or '-'}"
+                items.append((line, impl, dict(desc, op=line, var=vn)))
         return got
 
     # (a) systematic block
@@ -518,12 +536,14 @@ def run_one(ctx, inp: dict) -> dict:
     db = build_malformed(inp['recipe']) if stream.startswith('malformed') else D.build(inp['recipe'])
     out = {}
     op = inp.get('op', '')
-    if op.startswith('disc') or op.startswith('small') or op == 'discovery':
+    if op.startswith('disc') or op.startswith('small') or op.startswith('coordfor') or op == 'discovery':
         c = db.convention()
         try:
             out['impl'] = ','.join(str(x.name) for x in c.depth_coordinates) or '-'
             if op.startswith('small'):
                 out['impl'] = str(c.depth_coordinate.name)
+            if op.startswith('coordfor'):
+                out['impl'] = str(c.get_depth_coordinate_for_data_array(inp['var']).name)
         except Exception as e:  # noqa
             out['impl'] = f'ERR ({type(e).__name__}: {e})'
         if ctx.driver and op != 'discovery':
